@@ -51,7 +51,7 @@ pub fn replay_other(prop: &str, kind: &str, case: &serde_json::Value) -> Result<
     if kind == "build-history" || kind == "rebuild-history" {
         return crate::sweep::replay_history(prop, kind, case);
     }
-    if kind == "history" || kind == "schedule" || kind == "tie-after" {
+    if kind == "history" || kind == "schedule" || kind == "tie-after" || kind == "first-use-order" || kind == "alias" {
         return c14::replay(case);
     }
     if kind == "schedule-fine" {
